@@ -28,6 +28,8 @@ mod copy_future;
 mod multiaddr_ext;
 mod priv_client;
 mod protocol;
+#[cfg(libp2p_verif)]
+pub mod verif;
 
 mod proto {
     #![allow(unreachable_pub)]
